@@ -378,6 +378,13 @@ func codecFacts() {
 	skel("skel_gorumsUnmarshal", p.normalise(p.findFunc("encoding.go", "Codec.gorumsUnmarshal")))
 	skel("skel_CodecMarshal", p.normalise(p.findFunc("encoding.go", "Codec.Marshal")))
 	skel("skel_CodecUnmarshal", p.normalise(p.findFunc("encoding.go", "Codec.Unmarshal")))
+	skel("skel_NewCodec", p.normalise(p.findFunc("encoding.go", "NewCodec")))
+	// the decoder keeps the fields it cannot interpret (they are part of the message: round trip)
+	keeps := false
+	if f := p.findFunc("encoding.go", "NewCodec"); f != nil {
+		keeps = p.mentions(f.Body, "proto.UnmarshalOptions{") && !p.mentions(f.Body, "DiscardUnknown")
+	}
+	defBool("codec_keepsUnknown", keeps)
 	skel("skel_newMessage", p.normalise(p.findFunc("encoding.go", "newMessage")))
 	skel("skel_WrapMessage", p.normalise(p.findFunc("server.go", "WrapMessage")))
 }
